@@ -203,6 +203,7 @@ fn cli_case(t0: &mut Tape, w: &Worker) -> CaseResult {
     let stdin = ot.chance(1, 2);
     labels.push(if stdin { "src:stdin".into() } else { "src:file".into() });
     let mut case = CliCase::new(w, bytes.clone());
+    case.stall_one_in = 25; // now and then the producer on the pipe stalls for 1.3 s in mid-stream
     let mut args: Vec<String> = vec!["view".into(), "rdh".into(), "-d".into()];
     args.extend(filter.args());
     let (spec, o) = case.run(args, stdin);
@@ -295,6 +296,7 @@ fn cli_payload_case(t0: &mut Tape, w: &Worker) -> CaseResult {
     labels.push(filter.label().to_string());
     let stdin = ot.chance(1, 2);
     let mut case = CliCase::new(w, bytes.clone());
+    case.stall_one_in = 25; // now and then the producer on the pipe stalls for 1.3 s in mid-stream
     let mut args: Vec<String> = vec!["view".into(), "its-readout-frames-data".into(), "-d".into()];
     args.extend(filter.args());
     let (spec, o) = case.run(args, stdin);
